@@ -2392,4 +2392,147 @@ example :
     ∧ (completionCall sBoom false (List.replicate 40 (.resp (nd sA))) .clean).1.length = 31
     ∧ completionCall sBoom true [.resp fin] .clean = ([], .err sBoom) := by decide
 
+/-! ## Round 7: the OpenAI chat stream writer /repo runs since 9e8f7fa39 (`oaChatStreamFF`) -/
+
+/-- forget the `finish_reason` of a delta -/
+def eraseFinish : OaEv → OaEv
+  | .chunk c cs _ => .chunk c cs none
+  | e => e
+
+/-- **the F17f repair changes `finish_reason` fields only**: event for event the repaired writer equals the
+    previous one (`oaChatStreamFixed`) up to the `finish_reason` of the deltas — so text, tool calls, usage
+    chunks, `[DONE]` and error events (`openai_chat_stream_equiv`, `openai_stream_one_done`,
+    `openai_chat_stream_finish_usage`'s usage half, `openai_stream_failure_reported_fixed`) carry over. -/
+theorem oaChatStreamFF_erase (usage : Bool) (items : List (Item ChatMsg)) (sent : Bool) :
+    (oaChatStreamFF usage items sent).map eraseFinish = (oaChatStreamFixed usage items sent).map eraseFinish := by
+  induction items generalizing sent with
+  | nil => rfl
+  | cons it rest ih =>
+    cases it with
+    | err e =>
+      by_cases he : e.isEmpty = true
+      · simp [oaChatStreamFF, oaChatStreamFixed, he, ih]
+      · simp [oaChatStreamFF, oaChatStreamFixed, he, ih, eraseFinish]
+    | msg m =>
+      simp only [oaChatStreamFF, oaChatStreamFixed, oaChatStream, asChat, List.append_nil, List.map_append, ih]
+      simp [eraseFinish] <;> rfl
+
+theorem oaText_erase (evs : List OaEv) : oaText (evs.map eraseFinish) = oaText evs := by
+  induction evs with
+  | nil => rfl
+  | cons e es ih => cases e <;> simp_all [oaText, eraseFinish, OaEv.text?]
+
+theorem oaCalls_erase (evs : List OaEv) : oaCalls (evs.map eraseFinish) = oaCalls evs := by
+  induction evs with
+  | nil => rfl
+  | cons e es ih => cases e <;> simp_all [oaCalls, eraseFinish, OaEv.calls?]
+
+theorem oaDones_erase (evs : List OaEv) : oaDones (evs.map eraseFinish) = oaDones evs := by
+  induction evs with
+  | nil => rfl
+  | cons e es ih => cases e <;> simp_all [oaDones, eraseFinish, OaEv.isDone, List.filter_cons]
+
+theorem oaUsages_erase (evs : List OaEv) : oaUsages (evs.map eraseFinish) = oaUsages evs := by
+  induction evs with
+  | nil => rfl
+  | cons e es ih => cases e <;> simp_all [oaUsages, eraseFinish, OaEv.usage?, List.filterMap_cons]
+
+/-- **streaming /v1/chat/completions carries the native stream, the writer of the tree**: for every item
+    list — concatenated deltas = concatenated native contents, same calls, one `[DONE]` per native done
+    message, same usage chunks as the previous writer. -/
+theorem openai_chat_stream_equiv_FF (usage : Bool) (ms : List ChatMsg) :
+    oaText (oaChatStreamFF usage (ms.map Item.msg) false) = (ms.map (·.content)).flatten
+    ∧ oaCalls (oaChatStreamFF usage (ms.map Item.msg) false) = (ms.map (·.calls)).flatten
+    ∧ oaDones (oaChatStreamFF usage (ms.map Item.msg) false) = (ms.filter (·.info.done)).length
+    ∧ oaUsages (oaChatStreamFF usage (ms.map Item.msg) false) = oaUsages (oaChatStream usage (ms.map Item.msg) false) := by
+  have h := oaChatStreamFF_erase usage (ms.map Item.msg) false
+  have hp := (oaStreamFixed_eq_pinned usage).1 ms false
+  obtain ⟨e1, e2, e3⟩ := openai_chat_stream_equiv usage (ms.map Item.msg) false
+  rw [msgsOf_map_msg] at e1 e2 e3
+  refine ⟨?_, ?_, ?_, ?_⟩
+  · rw [← oaText_erase, h, oaText_erase, hp, e1]
+  · rw [← oaCalls_erase, h, oaCalls_erase, hp, e2]
+  · rw [← oaDones_erase, h, oaDones_erase, hp, e3]
+  · rw [← oaUsages_erase, h, oaUsages_erase, hp]
+
+/-- the repaired writer over messages: `finish_reason` of the deltas -/
+theorem oaChatStreamFF_finishes (usage : Bool) (pre : List ChatMsg) (m : ChatMsg) (sent : Bool)
+    (hq : ∀ x ∈ pre, Quiet x.info) (hd : m.info.done = true) :
+    oaFinishes (oaChatStreamFF usage ((pre ++ [m]).map Item.msg) sent)
+      = List.replicate pre.length none
+        ++ [if m.info.reason.isEmpty then none
+            else if sent || !(aggCalls (pre ++ [m])).isEmpty then some sToolCalls else some m.info.reason] := by
+  induction pre generalizing sent with
+  | nil =>
+    simp only [List.nil_append, List.map_cons, List.map_nil, oaChatStreamFF, hd, ↓reduceIte, List.append_nil,
+      List.length_nil, List.replicate_zero, aggCalls_cons]
+    rw [oaFinishes_append]
+    have : oaFinishes ((if usage = true then [OaEv.usage (usageOf m.info)] else []) ++ [OaEv.done]) = [] :=
+      oaTail_finishes usage m.info
+    rw [this]
+    simp [oaFinishes, OaEv.finish?, aggCalls]
+  | cons x xs ih =>
+    obtain ⟨hxd, hxr⟩ := hq x (by simp)
+    have ih' := ih (sent || !x.calls.isEmpty) (fun y hy => hq y (by simp [hy]))
+    simp only [List.cons_append, List.map_cons, oaChatStreamFF, hxd, hxr, List.isEmpty_nil, ↓reduceIte,
+      Bool.false_eq_true, List.append_nil, List.singleton_append, List.length_cons, List.replicate_succ]
+    simp only [oaFinishes, List.filterMap_cons, OaEv.finish?, List.nil_append] at ih' ⊢
+    rw [ih']
+    have hb : ((sent || !x.calls.isEmpty) || !(aggCalls (xs ++ [m])).isEmpty) = (sent || !(aggCalls (x :: (xs ++ [m]))).isEmpty) := by
+      rw [aggCalls_cons]
+      cases sent <;> cases hx : x.calls <;> cases ha : aggCalls (xs ++ [m]) <;> simp
+    simp [hb]
+
+theorem chatCallback_done_chunk_info (parse : Bytes → List Call) (b : Bool) (l : Chunk) (sb : Bytes) (idx : Nat)
+    (hl : l.done = true) : ∃ m, chatCallback parse b [l] sb idx = [m] ∧ m.info = chunkInfo l := by
+  simp only [chatCallback]
+  split
+  · exact ⟨_, rfl, rfl⟩
+  · split
+    all_goals first | exact ⟨_, rfl, rfl⟩ | (exfalso; simp_all)
+
+/-- **finish_reason agrees between the streamed and the non-streamed /v1/chat/completions on the tree**
+    (writer since 9e8f7fa39; F17a present, F17b repaired), tools in the request: for a
+    protocol-respecting run — the final message may carry content — with a non-empty `done_reason`, whenever
+    the streamed calls are the non-streamed ones (right-hand side of `tools_equiv_iff`), the last delta's
+    `finish_reason` is the non-streamed reply's.  No `l.content = []`, no `parse [] = []`: F17f is gone. -/
+theorem openai_finish_agree_FF (v : Variant) (hv : v.toolsStream = false) (hi : v.toolsIndex = true)
+    (parse : Bytes → List Call) (usage hist : Bool) (init : List Chunk) (l : Chunk)
+    (hnd : NoneDone init) (hl : l.done = true) (hr : (reasonStr l.reason).isEmpty = false)
+    (hg : (greedyCalls parse (init ++ [l]) []).map eraseIdx = (parse (texts (init ++ [l]))).map eraseIdx) :
+    ∃ (ms : List ChatMsg) (o : ChatMsg) (f : Option Bytes), chatStreamH v .none parse true hist (init ++ [l]) .ok = .ok (ms.map Item.msg)
+      ∧ chatOnceH v .none parse true hist (init ++ [l]) .ok = .ok o
+      ∧ (oaFinishes (oaChatStreamFF usage (ms.map Item.msg) false)).getLast? = some f
+      ∧ oaChatOnce (.ok o) = .chat o.info.named o.content o.calls f (usageOf o.info) := by
+  obtain ⟨sb', idx', happ⟩ := chatCallback_append parse true init [l] [] 0
+  obtain ⟨m, hm, hinfo⟩ := chatCallback_done_chunk_info parse true l sb' idx' hl
+  have hdone : m.info.done = true := by rw [hinfo]; simp [chunkInfo, hl]
+  have hms : chatCallback parse true (init ++ [l]) [] 0 = chatCallback parse true init [] 0 ++ [m] := by rw [happ, hm]
+  have hq := chatCallback_quiet parse true init [] 0 hnd
+  have hcalls := chatCallback_calls_exact parse (init ++ [l]) [] 0
+  have hreason : m.info.reason = reasonStr l.reason := by rw [hinfo]; simp [chunkInfo, hl]
+  have hstream : chatStreamH v .none parse true hist (init ++ [l]) .ok
+      = .ok ((chatCallback parse true init [] 0 ++ [m]).map Item.msg) := by
+    simp [chatStreamH, Fault.chatPre, chatItemsH, hv, endItemsV, sawDone_snoc init l hl, hms]
+  refine ⟨_, _, (if (greedyCalls parse (init ++ [l]) []).isEmpty then some (reasonStr l.reason) else some sToolCalls),
+    hstream, chatOnceH_ok_snoc v parse true hist init l hl, ?_, ?_⟩
+  · rw [oaChatStreamFF_finishes usage _ m false hq hdone]
+    have hr' : reasonStr l.reason ≠ [] := by intro e; simp [e] at hr
+    have hae : (aggCalls (chatCallback parse true init [] 0 ++ [m]) = []) ↔ (greedyCalls parse (init ++ [l]) [] = []) := by
+      rw [← hms, hcalls]; cases greedyCalls parse (init ++ [l]) [] <;> simp [setIdx]
+    simp only [List.getLast?_append, List.getLast?_singleton, Option.some_or, hreason, Bool.false_or]
+    by_cases hgc : greedyCalls parse (init ++ [l]) [] = []
+    · simp [hr', hae.mpr hgc, hgc]
+    · have : aggCalls (chatCallback parse true init [] 0 ++ [m]) ≠ [] := fun h => hgc (hae.mp h)
+      simp [hr', this, hgc]
+  · have hne : (parse (texts (init ++ [l]))).isEmpty = (greedyCalls parse (init ++ [l]) []).isEmpty := by
+      have := congrArg List.length hg
+      simp only [List.length_map] at this
+      cases h1 : parse (texts (init ++ [l])) <;> cases h2 : greedyCalls parse (init ++ [l]) [] <;> simp_all
+    simp only [Bool.true_and, hi, ↓reduceIte, hne]
+    cases hgc : (greedyCalls parse (init ++ [l]) []).isEmpty
+    · have : (setIdx 0 (parse (texts (init ++ [l])))).isEmpty = false := by rw [setIdx_isEmpty, hne, hgc]
+      simp [oaChatOnce, chunkInfo, hl, this, nonEmpty?, sToolCalls, hr]
+    · simp [oaChatOnce, chunkInfo, hl, nonEmpty?, hr]
+
 end OllamaVerif.C17
